@@ -31,7 +31,13 @@ func devResponse(received packet.Request) (packet.Response, bool) {
 		return packet.ReadDiscreteInputsResponseTCP{MBAPHeader: r.MBAPHeader, ReadDiscreteInputsResponse: packet.ReadDiscreteInputsResponse{UnitID: r.UnitID, InputsByteLength: uint8(n), Data: devBytes(r.StartAddress, n)}}, true
 	case *packet.ReadHoldingRegistersRequestTCP:
 		n := 2 * int(r.Quantity)
-		return packet.ReadHoldingRegistersResponseTCP{MBAPHeader: r.MBAPHeader, ReadHoldingRegistersResponse: packet.ReadHoldingRegistersResponse{UnitID: r.UnitID, RegisterByteLen: uint8(n), Data: devBytes(r.StartAddress, n)}}, true
+		data := devBytes(r.StartAddress, n)
+		if r.UnitID%2 == 1 {
+			// a device that serves from one register bank: the payload slice reaches to the end of the bank, the byte count
+			// says how much of it is the answer
+			data = append(data, 0xEE, 0xEE, 0xEE)
+		}
+		return packet.ReadHoldingRegistersResponseTCP{MBAPHeader: r.MBAPHeader, ReadHoldingRegistersResponse: packet.ReadHoldingRegistersResponse{UnitID: r.UnitID, RegisterByteLen: uint8(n), Data: data}}, true
 	case *packet.ReadInputRegistersRequestTCP:
 		n := 2 * int(r.Quantity)
 		return packet.ReadInputRegistersResponseTCP{MBAPHeader: r.MBAPHeader, ReadInputRegistersResponse: packet.ReadInputRegistersResponse{UnitID: r.UnitID, RegisterByteLen: uint8(n), Data: devBytes(r.StartAddress, n)}}, true
@@ -69,6 +75,10 @@ func (h scriptedHandler) Handle(ctx context.Context, received packet.Request) (p
 	if h.delay != nil {
 		h.delay()
 	}
+	if ctx.Err() != nil {
+		// a handler that looks at its context (it would pass it on to a backend): nobody has cancelled anything here
+		return nil, errors.New("handler: context is done: " + ctx.Err().Error())
+	}
 	kind := h.kind
 	if kind == "mix" {
 		switch unitOf(received) % 4 {
@@ -88,6 +98,15 @@ func (h scriptedHandler) Handle(ctx context.Context, received packet.Request) (p
 		e := &packet.ErrorParseTCP{Message: "busy", Packet: packet.ErrorResponseTCP{TransactionID: 0x0BAD, UnitID: 0xEE, Function: 0x55, Code: 6}}
 		return nil, fmt.Errorf("handler: %w", e)
 	case "generic":
+		if unitOf(received)%2 == 0 {
+			// the helper that failed returned (nil pointer of the response type, error): the error is what counts
+			return (*packet.ReadHoldingRegistersResponseTCP)(nil), errors.New("database is down")
+		}
+		if unitOf(received)%3 == 0 {
+			// ... or a half-filled response value next to the error
+			r, _ := devResponse(received)
+			return r, errors.New("database is down")
+		}
 		return nil, errors.New("database is down")
 	case "panic":
 		panic("handler panics")
